@@ -643,7 +643,17 @@ def _run(args: argparse.Namespace) -> int:
         declared_run_space = copy.deepcopy(declared_candidate)
 
     if args.run_space_max_runs is not None or args.run_space_dry_run:
-        run_space_section = config.setdefault("run_space", {})
+        # Merge the switches into the block the loader will read: a run space
+        # declared under ``pipeline:`` must not be shadowed by a new top-level one.
+        nested_parent = config.get("pipeline")
+        if (
+            "run_space" not in config
+            and isinstance(nested_parent, dict)
+            and nested_parent.get("run_space") is not None
+        ):
+            run_space_section = nested_parent["run_space"]
+        else:
+            run_space_section = config.setdefault("run_space", {})
         if not isinstance(run_space_section, dict):
             print("Invalid config: run_space block must be a mapping", file=sys.stderr)
             return EXIT_CONFIG_ERROR
